@@ -700,6 +700,11 @@ fn short(m: &Msg) -> String {
     }
 }
 
+/// Did the transport of this run report a write error (of whatever kind) so far?
+fn injected_write_errors(world: &World) -> bool {
+    world.borrow().err_kind.is_some()
+}
+
 impl Prop for Outbound {
     fn id(&self) -> &'static str {
         "C02"
@@ -832,7 +837,7 @@ impl Prop for Outbound {
                                 expect_write = true;
                             }
                         }
-                        (Some(Err(zlink_core::Error::Io(_) | zlink_core::Error::SocketWrite)), false) if flushes => {
+                        (Some(Err(zlink_core::Error::Io(_) | zlink_core::Error::SocketWrite | zlink_core::Error::BufferOverflow)), false) if flushes && injected_write_errors(&world2) => {
                             write_failed = true;
                             if let Some(m) = msg {
                                 pending.push(m.expected());
